@@ -426,7 +426,8 @@ func CollateralOnlyFaults() []Fault {
 	for _, f := range Faults {
 		switch f.Name {
 		case "tcbinfo-expired", "qeid-expired", "tcb-level-out-of-date", "qe-level-revoked", "qeid-wrong-mrsigner", "tcbinfo-wrong-fmspc", "tcbinfo-endpoint-down", "tcbinfo-signature-corrupt",
-			"leaf-revoked", "intermediate-revoked", "tcb-signer-revoked", "pck-crl-endpoint-down", "root-crl-endpoint-down", "pck-crl-expired", "root-crl-expired":
+			"leaf-revoked", "intermediate-revoked", "tcb-signer-revoked", "pck-crl-endpoint-down", "root-crl-endpoint-down", "pck-crl-expired", "root-crl-expired",
+			"tcbinfo-signature-member-missing", "qeid-signature-member-null":
 			out = append(out, f)
 		}
 	}
